@@ -220,6 +220,7 @@ PROPS = {
         "technique": "runtime monitoring: pagination scan reference model (order, exactly-once, page <= min(limit, 10000)/100, token iff non-empty, <= ceil(N/limit)+1 requests) over a raw HTTP client, with conservation check pages fetched = pages served",
         "engines": [
             {"name": "c15-scan", "bin": "vmon_wsp", "package": "wsp"},
+            {"name": "c15-tls", "bin": "vmon_tls", "package": "tlsmon", "floor": (2, 2)},
         ],
         "assumptions": ASSUME_COMMON,
     },
